@@ -28,7 +28,9 @@ ASSUMPTIONS = [
     "ControllerApplication is constructed with the zigpy.util.Requests shim (vlib/zshim.py)",
 ]
 
-MAX_FAIL = 4  # tolerated consecutive failures (statement: 'more times in a row than the tolerated maximum')
+from vlib import cfg
+
+MAX_FAIL = cfg.watchdog_tolerated()  # tolerated consecutive failures (statement: 'more times in a row than the tolerated maximum')
 OUT4 = ["ok", "timeout", "err"]
 OUTN = ["ok", "timeout@counters", "err@counters", "timeout@buffers", "err@buffers", "ok:badstatus@buffers"]
 
